@@ -25,12 +25,12 @@ PROPERTY = "C05"
 BOUNDS = {
     "quick": dict(diagonal_n=[2, 3], lu_n=[2, 3], lu_perms="all", cholesky_n=[2, 3], ldl_n=[2, 3], ldl_perms="all (n=2), 3 of 6 (n=3)",
                   ldl_block="n=2 (one 2x2 block), n=3 (1+2)", qr_n=[2], sparse_lu_n=[2, 3], precond_n=[2, 3],
-                  auto_n=[2], auto_overrides=["none", "all", "herm", "sym"], cg_n=2, cg="maxit 1 (all trans, identity/Jacobi, x0 none/symbolic, real/complex); maxit 2 restart 1 (real, x0); maxit 2 restart 50 = recursive residual branch (real, x0, arbitrary preconditioner output)",
+                  auto_n=[2], auto_overrides=["none", "all", "herm", "sym"], cg_n=2, cg="maxit 1 (all trans, identity/Jacobi; real with x0 none/symbolic, complex with x0 none); maxit 2 restart 1 (real, x0); maxit 2 restart 50 = recursive residual branch (real, x0, arbitrary preconditioner output)",
                   multigrid=["2x2", "4x2", "2x2x2"], multigrid_ndof=[1, 2],
                   rhs_shapes=["(n,)", "(n,1)", "(n,2)"], trans=["N", "T", "H"], data=["real", "complex", "real matrix / complex rhs"]),
     "thorough": dict(diagonal_n=[2, 3, 4], lu_n=[2, 3, 4], lu_perms="all (n<=3), 5 of 24 (n=4)", cholesky_n=[2, 3, 4], ldl_n=[2, 3, 4],
                      ldl_perms="all (n<=3), 3 of 24 (n=4)", ldl_block="n=2, n=3 (1+2, 2+1), n=4 (2+2)", qr_n=[2], sparse_lu_n=[2, 3, 4],
-                     precond_n=[2, 3, 4], auto_n=[2, 3], auto_overrides=["none", "all", "herm", "sym"], cg_n=2, cg="as quick + maxit 2 complex, recursive branch with identity/Jacobi, block of 2 right-hand sides",
+                     precond_n=[2, 3, 4], auto_n=[2, 3], auto_overrides=["none", "all", "herm", "sym"], cg_n=2, cg="as quick + complex with symbolic x0, maxit 2 complex, recursive branch with identity/Jacobi, block of 2 right-hand sides",
                      orth="2 and 3 vectors of length 3", multigrid=["2x2", "4x2", "2x2x2", "4x4", "2x2x4"],
                      multigrid_ndof=[1, 2, 3], rhs_shapes=["(n,)", "(n,1)", "(n,2)"], trans=["N", "T", "H"],
                      data=["real", "complex", "real matrix / complex rhs"]),
@@ -692,7 +692,9 @@ def sc_cg(V, P, cfg):
     n = 2
     ncol = 2 if sk == "c2" else 1
     shp = (n,) if sk == "v" else (n, ncol)
-    rat = bool(cfg.get("rat", ncol == 1))
+    # complex data together with a symbolic initial guess: 15 real unknowns; the purely polynomial queries of the rational
+    # parametrisation send z3's nlsat into very long runs there, the SQRT-function encoding returns `unknown` quickly
+    rat = bool(cfg.get("rat", ncol == 1 and not (xc and cfg["x0"])))
     x0 = None
     if cfg["x0"]:
         x0 = V.cplxs("x0", shp) if xc else V.reals("x0", shp)
@@ -829,43 +831,52 @@ def sc_cg(V, P, cfg):
     return obs
 
 
+DEG_MATS = {"r1": [[2.0, 0.5], [0.5, 3.0]], "r2": [[1.0, -2.0], [-2.0, 5.0]], "c1": [[2.0, 0.5 + 0.25j], [0.5 - 0.25j, 3.0]]}
+
+
 def sc_cg_degenerate(V, P, cfg):
-    """CG on right-hand sides with a zero column / a column the initial guess already solves (concrete zeros, symbolic A):
-    the exact solution of such a column is x0 (or 0); the returned block must solve all columns."""
+    """Regression items for the repaired defect D(CG-NaN): right-hand sides with a zero column / a column the initial guess
+    already solves.  Concrete dyadic numbers only (the defect lives exactly where the symbolic run excludes paths: 0/0);
+    the clause is evaluated on the real library: no NaN, every column solved, no max-iteration warning."""
     from pymoto.solvers import CG
-    from .catalogue import _mk_sparse
-    A = _hpd(V, False)
+    import scipy.sparse as sps
+    A = np.array(DEG_MATS[cfg["mat"]])
     case = cfg["case"]
-    one = V.const(1)
-    zero = V.const(0)
     x0 = None
+    b1 = np.array([1.0, 1.0], dtype=A.dtype)
     if case == "zero-rhs":
-        b = np.array([zero, zero], dtype=object if V.symbolic else float)
+        b = np.zeros(2, dtype=A.dtype)
     elif case == "zero-column":
-        b = np.array([[V.real("b_0", default=1.0), zero], [V.real("b_1", default=1.0), zero]], dtype=object if V.symbolic else float)
-    else:   # solved-column: x0[:, 1] solves the second column exactly (b[:, 1] = A e_0, x0[:, 1] = e_0)
-        b = np.array([[V.real("b_0", default=1.0), A[0, 0]], [V.real("b_1", default=1.0), A[1, 0]]],
-                     dtype=object if V.symbolic else float)
-        x0 = np.array([[zero, one], [zero, zero]], dtype=object if V.symbolic else float)
-    b = _fin(V, b)
-    if V.symbolic and case != "zero-rhs":
-        V.assume(b[0, 0] * b[0, 0] + b[1, 0] * b[1, 0] > 0)
-    tol = V.const("1e-6")
-    s = CG(_mk_sparse(V, A), tol=tol, maxit=2)
-    with warnings.catch_warnings(record=True) as wl:
-        warnings.simplefilter("always")
-        x = s.solve(b.copy(), x0=(None if x0 is None else _fin(V, x0).copy()))
+        b = np.stack([b1, 0 * b1], axis=1)
+    elif case == "zero-first-column":
+        b = np.stack([0 * b1, b1], axis=1)
+    else:   # solved-column: x0[:, 1] solves the second column exactly
+        xs = np.array([0.75, 0.875], dtype=A.dtype)
+        b = np.stack([b1, A @ xs], axis=1)
+        x0 = np.stack([0 * b1, xs], axis=1)
+    if V.symbolic:
+        from symx import npshim
+        npshim.uninstall()          # plain floats on the real NumPy / SciPy: the library stand-ins are not wanted here
+    try:
+        s = CG(sps.csc_matrix(A), tol=1e-10)
+        with warnings.catch_warnings(record=True) as wl:
+            warnings.simplefilter("always")
+            x = s.solve(b.copy(), x0=(None if x0 is None else x0.copy()), trans=cfg.get("trans", "N"))
+    finally:
+        if V.symbolic:
+            npshim.install()
     warned = any("Maximum iterations" in str(w_.message) for w_ in wl)
-    obs = dict(x=x, warned=int(warned), A=A, b=b)
+    M = _op(A, cfg.get("trans", "N"))
+    res = b - M @ x
+    scale = max(1.0, float(np.max(np.abs(b))))
+    finite = bool(np.all(np.isfinite(x)))
+    ok = finite and bool(np.max(np.abs(res)) <= 1e-8 * scale)
     if P is not None:
-        res = np.asarray(b) - np.asarray(A) @ np.asarray(x)
-        shp = np.shape(b)
-        ncol = 1 if len(shp) == 1 else shp[1]
-        r2, b2 = _sqnorm_cols(res.reshape(2, ncol)), _sqnorm_cols(np.asarray(b).reshape(2, ncol))
-        if not warned:
-            for j in range(ncol):
-                P.holds("cgdeg:converged-claim[%d]" % j, r2[j] <= tol * tol * b2[j], kind="cg-degenerate:%s" % case)
-    return obs
+        P.holds("cgdeg:finite", finite, kind="cg-degenerate:%s" % case)
+        P.holds("cgdeg:solves-every-column", ok, kind="cg-degenerate:%s" % case)
+        P.holds("cgdeg:no-max-iteration-warning", not warned, kind="cg-degenerate:%s" % case)
+        P.holds("cgdeg:shape", np.shape(x) == np.shape(b), kind="cg-degenerate:%s" % case)
+    return dict(x=np.nan_to_num(np.asarray(x, dtype=complex), nan=1e300), warned=int(warned), ok=int(ok))
 
 
 def _any_true(conds):
@@ -1129,18 +1140,22 @@ def items(tier):
         for prec in ("identity", "jacobi"):
             for x0 in (False, True):
                 for tag, ac, xc in DATA[:2]:
+                    if q and x0 and ac:
+                        continue        # complex data with a symbolic initial guess: thorough tier (SQRT-function encoding)
                     cg(t, prec, x0, 1, 1, tag, ac, xc)
         for prec in ("identity", "jacobi"):
             cg(t, prec, True, 1, 2, "r", False, False)
         cg(t, "free", True, 50, 2, "r", False, False)
         if not q:
             cg(t, "identity", False, 50, 2, "r", False, False)
-            cg(t, "identity", True, 1, 2, "c", True, True)
+            cg(t, "identity", False, 1, 2, "c", True, True)
             cg(t, "free", False, 50, 2, "c", True, True)
-    for case in ("zero-rhs", "zero-column", "solved-column"):
-        add("cgdeg", case, case=case)
+    for case in ("zero-rhs", "zero-column", "zero-first-column", "solved-column"):
+        for mat in ("r1", "r2", "c1"):
+            for t in (("N",) if mat != "c1" else TRANS):
+                add("cgdeg", "%s-%s-%s" % (case, mat, t), case=case, mat=mat, trans=t)
     cg("N", "identity", True, 1, 1, "r", False, False, shape="c1")
-    cg("H", "jacobi", True, 1, 1, "c", True, True, shape="c1", sparse=False)
+    cg("H", "jacobi", False, 1, 1, "c", True, True, shape="c1", sparse=False)
     if not q:
         cg("N", "identity", True, 1, 1, "r", False, False, shape="c2")
         cg("N", "jacobi", False, 50, 2, "r", False, False)
@@ -1162,10 +1177,18 @@ MAX_PATHS = dict(auto=400, cg=60, orth=60, ldl=40)
 
 def run_item(cfg, tier):
     kw = {}
+    try:
+        import resource
+        lim = 8 * 1024 ** 3            # safety net: z3's nlsat can overshoot its time-out while allocating memory
+        resource.setrlimit(resource.RLIMIT_AS, (lim, lim))
+    except Exception:
+        pass
     if cfg["kind"] == "cg":
         # feasibility of the deeper CG paths is a non-linear question (SQRT of |z|^2, reciprocal of p^H A p); an undecided
         # side is kept (sound: obligations are still checked under the path condition), so a short time-out only saves time
         kw["feas_timeout_ms"] = 1500 if tier == "quick" else 5000
+        if cfg["ac"] and cfg["x0"]:
+            kw["feas_timeout_ms"] = 8000        # SQRT-function encoding: give the solver time to refute the beta == 0 side
     if cfg["kind"] == "qr":
         kw["obl_timeout_ms"] = 30000 if tier == "quick" else 120000    # identities modulo the two unit-norm relations
     return symbolic_run(SCEN[cfg["kind"]], cfg, tier, max_paths=MAX_PATHS.get(cfg["kind"], 20), **kw)
@@ -1187,18 +1210,12 @@ def replay(cfg, label, env, case):
     V = Vals(env=env)
     tol = 1e-8
     if kind == "cgdeg":
-        # a division by zero of the symbolic run (exception label) or a failed residual clause: the clause itself is evaluated
-        # on the real code - every column of the returned block must be finite and solve its system to the tolerance
+        # concrete regression items: the clause is evaluated on the real library
         obs = SCEN[kind](V, None, cfg)
-        A, b, x = np.asarray(obs["A"], dtype=float), np.asarray(obs["b"], dtype=float), np.asarray(obs["x"], dtype=float)
-        ncol = 1 if b.ndim == 1 else b.shape[1]
-        res = b.reshape(2, ncol) - A @ x.reshape(2, ncol)
-        finite = bool(np.all(np.isfinite(x)))
-        ok = finite and all(np.linalg.norm(res[:, j]) <= 1e-6 * np.linalg.norm(b.reshape(2, ncol)[:, j]) * (1 + 1e-6) + 1e-300
-                            for j in range(ncol))
-        return dict(reproduced=bool(not ok and not obs["warned"]),
-                    detail=dict(case=cfg["case"], x=x.tolist(), A=A.tolist(), b=b.tolist(), finite=finite, max_iteration_warning=bool(obs["warned"]),
-                                note="CG returned without its max-iteration warning but x does not solve A x = b"))
+        bad = (not obs["ok"]) or bool(obs["warned"])
+        return dict(reproduced=bool(bad), detail=dict(case=cfg["case"], matrix=DEG_MATS[cfg["mat"]], trans=cfg.get("trans", "N"),
+                                                      x=[str(v) for v in np.asarray(obs["x"]).ravel()], solves=bool(obs["ok"]),
+                                                      max_iteration_warning=bool(obs["warned"])))
     if label.startswith("exception:"):
         try:
             SCEN[kind](V, None, cfg)
